@@ -915,7 +915,10 @@ class FuncGen:
         for _ in range(n):
             if self.budget <= 0:
                 break
-            out += self.stmt(depth)
+            one = self.stmt(depth)
+            out += one
+            if isinstance(one, DeadTail):
+                return DeadTail(out)      # the statement ends in dead code at this nesting level
             if self.terminated(out):
                 if self.r.random() < 0.3 and depth > 0:
                     self.feat("dead_code")
@@ -1107,6 +1110,9 @@ class FuncGen:
             if r.random() < 0.8:
                 arm = self.stmts(1, depth)
                 code += list(arm)
+                if k == n - 1 and isinstance(arm, DeadTail):
+                    # the last arm stands at the nesting level of the switch statement itself
+                    return DeadTail(code)
         return code
 
 
